@@ -37,6 +37,7 @@ BOUNDS = {"quick": dict(raw_vector="any point of the optimiser box (unbounded re
           "thorough": dict(raw_vector="any point of the optimiser box", evaluation_points=1, T="T_min <= T <= T_max")}
 STUBS = ["NLopt/SciPy optimiser = nondeterministic stub returning any vector in its box",
          "OptimizedResult.__init__ bypassed (object.__new__ + fields): acf/np.std/unc_factor/get_T_bnds not encodable; f_unc = fresh non-negative symbol",
+         "uncertainty case: acf -> [1, rho] with -1 < rho < 1 arbitrary, np.std -> arbitrary s >= 0, unc_factor(n) -> positive number for n > 1 and NaN otherwise (Student t with n-1 degrees of freedom)",
          "ModelCoefficients(...) -> model_construct twin"]
 MODELS_USED = ["symnp.clip (ITE)", "EXP uninterpreted + axioms"]
 ASSUMPTIONS = ["box contract: balance points in [T_min,T_max] (superset of initial [T_min,T_max] and final [T_min_seg,T_max_seg] boxes and of the pinned c_hdd end case), "
@@ -44,7 +45,7 @@ ASSUMPTIONS = ["box contract: balance points in [T_min,T_max] (superset of initi
                "T_min <= T_min_seg <= T_max_seg <= T_max, T_min < T_max (get_T_bnds order statistics)",
                "bounds cases: 10 ** OoM_numba(x, 'floor') is abstracted by its envelope (10 for x == 0, else some w with |x|/10 < w <= |x|)",
                "what NLopt actually returns, f_unc finiteness, T_*_seg being order statistics: outside the claim"]
-EXPECTED_REGIMES = ["raw balance points crossed", "reduced to single-slope", "reduced to flat", "smoothing kept", "degenerate proposed bound widened"]
+EXPECTED_REGIMES = ["raw balance points crossed", "reduced to single-slope", "reduced to flat", "smoothing kept", "degenerate proposed bound widened", "effective degrees of freedom floored at 1"]
 
 KINDS = {
     "hdd_tidd_cdd_smooth": ["hdd_bp", "hdd_beta", "hdd_k", "cdd_bp", "cdd_beta", "cdd_k", "intercept"],
@@ -103,7 +104,7 @@ def cases(tier, seed):
     for k in KINDS:
         for sn in split_names(k):
             out.append(f"{k}/curve/{sn}")
-    out += ["hdd_tidd_cdd_smooth/bounds/x", "hdd_tidd_cdd/bounds/x"]
+    out += ["hdd_tidd_cdd_smooth/bounds/x", "hdd_tidd_cdd/bounds/x", "tidd/uncertainty/x"]
     return out
 
 
@@ -387,10 +388,89 @@ def run_bounds(case, smooth):
 REPLAY["bounds"] = replay_bounds
 
 
+# ---------------------------------------------------------------- stored uncertainty is a number
+
+def _unc_object(N, k, resid):
+    import types as _t
+    o = object.__new__(orr.OptimizedResult)
+    o.N, o.num_coeffs, o.resid = N, k, resid
+    o.settings = _t.SimpleNamespace(uncertainty_alpha=0.1)
+    return o
+
+
+def replay_unc(inp):
+    """real _prediction_uncertainty (real np.std, unc_factor, t quantile); only the lag-1 autocorrelation of the
+    residuals is injected from the witness"""
+    env = inp["env"]
+    N, k, rho = int(env["N"]), int(env["k"]), float(env["rho"])
+    resid = np.resize(np.array([1.0, -1.0, 0.5, -0.5]), N) * float(env.get("s", 1.0) or 1.0)
+    o = _unc_object(N, k, resid)
+    with patched(orr, acf=lambda *a, **kw: np.array([1.0, rho])):
+        o._prediction_uncertainty()
+    bad = not (np.isfinite(o.f_unc) and o.f_unc >= 0)
+    return bad, f"f_unc = {o.f_unc} for N={N}, {k} coefficients, lag-1 autocorrelation {rho} (effective degrees of freedom {o.DoF})"
+
+
+def run_unc(case):
+    """OptimizedResult._prediction_uncertainty for every sample size, coefficient count and residual autocorrelation:
+    the t quantile is always asked for a sample with at least one degree of freedom, so the stored f_unc is a finite
+    non-negative number"""
+    from symv.proxies import SInt
+    case.inputs = [z3.Int("N"), z3.Int("k"), z3.Real("rho"), z3.Real("s"), z3.Real("u")]
+    asked = []
+
+    def unc(n, interval="PI", alpha=0.1):
+        asked.append(n)
+        eng = E.cur()
+        # Student t with n - 1 degrees of freedom: defined (finite, positive) exactly for n > 1
+        if eng.branch(to_real(lift(n)) > 1) if isinstance(n, (SReal, SInt)) else n > 1:
+            eng.assume(z3.Real("u") > 0)
+            return SReal(z3.Real("u"))
+        return float("nan")
+
+    def run():
+        eng = E.cur()
+        del asked[:]
+        N, k, rho, sd = z3.Int("N"), z3.Int("k"), z3.Real("rho"), z3.Real("s")
+        for c in (N >= 3, k >= 1, k <= 7, rho > -1, rho < 1, sd >= 0):
+            eng.assume(c)
+        o = _unc_object(SInt(N), SInt(k), None)
+        o._prediction_uncertainty()
+        return o.f_unc, o.DoF, list(asked)
+
+    class _NP:  # np.std(resid) -> the residual spread, an arbitrary non-negative number
+        def __getattr__(self, name):
+            return getattr(symnp, name)
+
+        def std(self, x, *a, **kw):
+            return SReal(z3.Real("s"))
+
+    with patched(orr, acf=lambda *a, **kw: [1.0, SReal(z3.Real("rho"))], unc_factor=unc, np=_NP()):
+        paths = case.explore(run)
+    rp = ("unc", lambda mdl: dict(env=model_env(mdl, case.inputs)))
+    for p in paths:
+        if p.outcome != "ret":
+            case.rep["harness_errors"].append(f"_prediction_uncertainty raised {p.value!r}")
+            continue
+        f_unc, dof, asked_n = p.value
+        case.twin(p)
+        ok = isinstance(f_unc, SReal) or (isinstance(f_unc, (int, float)) and f_unc == f_unc)
+        case.prove(p, bool(ok), "the stored uncertainty factor is a number (t quantile asked for a sample with at least one degree of freedom)", replay=rp)
+        if isinstance(f_unc, SReal):
+            case.prove(p, to_real(lift(f_unc)) >= 0, "the stored uncertainty factor is non-negative", replay=rp)
+        case.regime("effective degrees of freedom floored at 1", not isinstance(dof, (SReal, SInt)))
+    case.sample(dict(function="OptimizedResult._prediction_uncertainty", paths=len(paths)))
+
+
+REPLAY["unc"] = replay_unc
+
+
 def run_case(case: Case, name: str):
     kind, mode, split = name.split("/")
     if mode == "bounds":
         return run_bounds(case, kind.endswith("smooth"))
+    if mode == "uncertainty":
+        return run_unc(case)
     V = raw_vars(kind)
     case.inputs = list(V.values())
     sa = split_assumptions(kind, V, split)
